@@ -14,8 +14,11 @@ protos = [(n, ' '.join(a.split())) for n, a in re.findall(r'\bint\s+(ppl_\w+)\s*
 
 EXCLUDE_RE = re.compile(r'^(ppl_initialize|ppl_finalize|ppl_set_error_handler|ppl_set_timeout|ppl_reset_timeout|ppl_set_deterministic_timeout|'
                         r'ppl_reset_deterministic_timeout|ppl_set_rounding_for_PPL|ppl_restore_pre_PPL_rounding|ppl_irrational_precision|'
-                        r'ppl_set_irrational_precision|ppl_version.*|ppl_banner|ppl_io_print_.*|ppl_io_wrap_string|ppl_io_set_variable_output_function|'
-                        r'ppl_io_get_variable_output_function|ppl_max_space_dimension|ppl_not_a_dimension)$')
+                        r'ppl_set_irrational_precision|ppl_thread_initialize|ppl_thread_finalize|ppl_version.*|ppl_banner|ppl_io_print_.*|ppl_io_wrap_string|ppl_io_set_variable_output_function|'
+                        r'ppl_io_get_variable_output_function|ppl_max_space_dimension|ppl_not_a_dimension|'
+                        # documented precondition whose violation is documented as undefined behaviour in the C++ class
+                        # (Box::has_lower_bound / has_upper_bound: non-empty box, var within the space dimension)
+                        r'ppl_\w+_has_(upper|lower)_bound)$')
 # handle types that are views into another object (iterators, tree nodes): never pooled, never passed at random
 VIEW_TYPES = re.compile(r'(_iterator$|^PIP_Tree_Node$|^PIP_Decision_Node$|^PIP_Solution_Node$|^Artificial_Parameter)')
 
@@ -24,6 +27,38 @@ for m in re.finditer(r'typedef struct ppl_(\w+)_tag\* ppl_\w+_t;', t):
     if m.group(1) not in htypes:
         htypes.append(m.group(1))
 hidx = {h: i for i, h in enumerate(htypes)}
+# ppl_Polyhedron_t handles denote C_Polyhedron or NNC_Polyhedron objects and the wrappers static_cast according to
+# the NAME of the entry point: passing a handle of the other class is outside the interface's type discipline
+# (undefined behaviour, not an 'ill-formed argument').  Two pools: hidx['Polyhedron'] holds C, NNC_POOL holds NNC.
+NNC_POOL = len(htypes)
+
+
+def poly_topology(name, is_output, argname='', variant=None):
+    """'C', 'N' or 'any' for a Polyhedron-typed argument `argname` of entry point `name` (None: unknown -> no thunk)."""
+    if variant:                      # linear_partition: both inputs and the output have the class of x
+        return variant
+    if is_output:
+        m = re.match(r'ppl_new_(C|NNC)_Polyhedron_', name)
+        return {'C': 'C', 'NNC': 'N'}[m.group(1)] if m else None
+    # termination analysis: pset* as named by the entry point; the output spaces ph* are C (MS) or NNC (PR) polyhedra
+    m = re.match(r'ppl_(termination_test|one_affine_ranking_function|all_affine_ranking_functions|all_affine_quasi_ranking_functions)_(MS|PR)_(.*?)(_2)?$', name)
+    if m:
+        if argname.startswith('pset'):
+            m2 = re.match(r'(C|NNC)_Polyhedron$', m.group(3))
+            return {'C': 'C', 'NNC': 'N'}[m2.group(1)] if m2 else None
+        if argname.startswith('ph'):
+            return 'C' if m.group(2) == 'MS' else 'N'
+        return None
+    if name.startswith('ppl_Polyhedron_') or name in ('ppl_delete_Polyhedron', 'ppl_io_fprint_Polyhedron', 'ppl_io_asprint_Polyhedron'):
+        return 'any'
+    m = re.search(r'_from_(C|NNC)_Polyhedron', name)
+    if m:
+        return {'C': 'C', 'NNC': 'N'}[m.group(1)]
+    m = re.search(r'Pointset_Powerset_(C|NNC)_Polyhedron', name)
+    if m:
+        return {'C': 'C', 'NNC': 'N'}[m.group(1)]
+    return None
+
 
 enums = {}
 for m in re.finditer(r'enum (ppl_enum_\w+)\s*\{([^}]*)\}', t):
@@ -34,7 +69,13 @@ lines = []
 table = []
 skipped = collections.Counter()
 undefined = []
+protos_v = []
 for name, args in protos:
+    if name == 'ppl_Polyhedron_linear_partition':
+        protos_v += [(name, args, 'C'), (name, args, 'N')]
+    else:
+        protos_v.append((name, args, None))
+for name, args, variant in protos_v:
     if EXCLUDE_RE.match(name):
         skipped['excluded'] += 1
         continue
@@ -100,20 +141,47 @@ for name, args in protos:
             cst0, cst, H, ptr = hm.group(1), hm.group(2), hm.group(3), hm.group(4)
             if H not in hidx or VIEW_TYPES.search(H):
                 ok = False; break
-            if ptr and cst0:      # const ppl_const_X_t*: optional argument (pointer to a handle or NULL)
+            if H == 'Polyhedron' and ptr and cst0:
+                ok = False; break
+            if ptr and cst0 and name.endswith('_wrap_assign'):
+                # `pcs`: "possibly null"; a non-null system must mention only the wrapped variables (else documented
+                # undefined behaviour), so random calls pass a null pointer or a pointer to a null handle only
+                body.append('ppl_const_%s_t %s_h = nullptr; const ppl_const_%s_t* %s = C.mod(2) ? &%s_h : nullptr;' % (H, v, H, v, v)); call.append(v)
+            elif ptr and cst0:      # const ppl_const_X_t*: optional argument (pointer to a handle or NULL)
                 body.append('ppl_const_%s_t %s_h = (ppl_const_%s_t) C.pick(%d, true, true); const ppl_const_%s_t* %s = %s_h ? &%s_h : nullptr;' % (H, v, H, hidx[H], H, v, v, v)); call.append(v)
             elif ptr and cst:     # output: borrowed reference
                 body.append('ppl_const_%s_t %s = (ppl_const_%s_t) SENTINEL;' % (H, v, H)); call.append('&' + v)
                 post.append('C.out_borrowed(r, (const void*) %s);' % v)
             elif ptr:             # output: new object owned by the caller
+                pool_i = hidx[H]
+                if H == 'Polyhedron':
+                    tp = poly_topology(name, True, m.group(2), variant)
+                    if tp is None:
+                        ok = False; break
+                    pool_i = NNC_POOL if tp == 'N' else hidx[H]
                 body.append('ppl_%s_t %s = (ppl_%s_t) SENTINEL;' % (H, v, H)); call.append('&' + v)
-                post.append('C.out_owned(r, %d, (void*) %s);' % (hidx[H], v))
+                post.append('C.out_owned(r, %d, (void*) %s);' % (pool_i, v))
             else:
                 is_delete = name == 'ppl_delete_' + H
-                body.append('ppl_%s%s_t %s = (ppl_%s%s_t) C.pick(%d, %s, false); if (!%s) return C.skip();' % ('const_' if cst else '', H, v, 'const_' if cst else '', H, hidx[H], 'true' if (cst and not is_delete) else 'false', v))
+                pool_i, pool_j = hidx[H], -1
+                if H == 'Polyhedron':
+                    am = re.match(r'ppl_assign_(C|NNC)_Polyhedron_from_(C|NNC)_Polyhedron$', name)
+                    if am:
+                        tp = {'C': 'C', 'NNC': 'N'}[am.group(1 if i == 0 else 2)]
+                    else:
+                        tp = poly_topology(name, False, m.group(2), variant)
+                    if tp is None:
+                        ok = False; break
+                    if tp == 'N':
+                        pool_i = NNC_POOL
+                    elif tp == 'any':
+                        pool_j = NNC_POOL
+                body.append('ppl_%s%s_t %s = (ppl_%s%s_t) C.pick(%d, %s, false, %d); if (!%s) return C.skip();' % ('const_' if cst else '', H, v, 'const_' if cst else '', H, pool_i, 'true' if (cst and not is_delete) else 'false', pool_j, v))
                 call.append(v); nh_in += 1
                 if is_delete:
-                    post.append('C.deleted(r, %d, (void*) %s);' % (hidx[H], v))
+                    post.append('C.deleted(r, %d, (void*) %s);' % (pool_i, v))
+                    if pool_j >= 0:
+                        post.append('C.deleted(r, %d, (void*) %s);' % (pool_j, v))
         else:
             ok = False; break
     if not ok:
@@ -130,12 +198,12 @@ for name, args in protos:
     lines.append('  return C.after(r);')
     lines.append('}')
     # domain class of the entry point (for reporting)
-    table.append((name, k, nh_in))
+    table.append((name + ('#NNC' if variant == 'N' else ''), k, nh_in))
 
 with open(out, 'w') as f:
     f.write('// GENERATED by tools/gen_capi_thunks.py from the preprocessed ppl_c.h -- do not edit\n')
-    f.write('static const char* const HTYPE_NAMES[] = { %s };\n' % ', '.join('"%s"' % h for h in htypes))
-    f.write('static const int N_HTYPES = %d;\n' % len(htypes))
+    f.write('static const char* const HTYPE_NAMES[] = { %s, "Polyhedron" };   // last: the pool of NNC polyhedra\n' % ', '.join('"%s"' % h for h in htypes))
+    f.write('static const int N_HTYPES = %d;\n' % (len(htypes) + 1))
     f.write('\n'.join(lines) + '\n')
     f.write('struct ThunkDesc { const char* name; int (*fn)(CallCtx&); int n_handles_in; };\n')
     f.write('static const ThunkDesc THUNKS[] = {\n')
@@ -144,7 +212,7 @@ with open(out, 'w') as f:
     f.write('};\nstatic const int N_THUNKS = %d;\n' % len(table))
     names = set(n for n, a in protos)
     f.write('typedef int (*DeleteFn)(const void*);\nstatic const DeleteFn DELETE_FN[] = {\n')
-    for h in htypes:
+    for h in htypes + ['Polyhedron']:
         f.write('  %s,\n' % ('(DeleteFn) ppl_delete_%s' % h if ('ppl_delete_' + h) in names else 'nullptr'))
     f.write('};\n')
     f.write('static const int N_PROTOTYPES = %d;\n' % len(protos))
